@@ -611,15 +611,119 @@ def k5(prog, rep):
     rep.check(outs == {0: 0, 1: 8, 2: 16, 3: 24}, "K5-crc", "Final writes the state least-significant byte first", fi.loc, "%s" % outs, function="CRC32C_Final", construct="final")
 
 
+def k7_regions(prog, rep):
+    """Array-parameter contracts: an argument passed for `T p[static N]` designates at least N elements inside its
+    object, and two `restrict` array parameters of one call never receive overlapping regions of the same object."""
+    from .. import mem
+    n = 0
+    for up in ("alg/sha256.c", "alg/sha1.c", "alg/md5.c"):
+        u = prog.unit(up)
+        for f in u.funcs:
+            if f.file != up:
+                continue
+            aliases = mem.local_aliases(f, u)
+            for c in f.calls():
+                g = u.func(c.callee) if c.callee else None
+                if g is None or g.file != up:
+                    continue
+                regs = []
+                for k, p in enumerate(g.params):
+                    if not p.get("arraystatic") or k >= len(c.args) or c.arg(k) is None:
+                        continue
+                    need = p["arraybound"] * p["elemsize"]
+                    tgt = mem.pointer(c.arg(k), u, aliases)
+                    if tgt is None or tgt[0][0] != "obj":
+                        continue        # a pointer received from the caller: its contract was checked at that call
+                    root, off = tgt[0], tgt[1]
+                    size = None
+                    for e in f.all_elems():
+                        if e.cls == "DeclStmt":
+                            for d in e.decls or []:
+                                if d["id"] == root[2]:
+                                    size = (u.types.get(d["ty"]) or {}).get("size")
+                    if size is None or off is None:
+                        continue
+                    n += 1
+                    rep.check(off + need <= size, "K7-region", "%s: argument %s for %s[static %d]" % (c.callee, show(norm(c.arg(k))), p["name"], p["arraybound"]), c.where,
+                              "needs %d bytes at offset %d of %s, which has %d" % (need, off, root[1], size), function=f.name, construct="region-size:" + p["name"])
+                    regs.append((root, off, off + need, p.get("restrict"), p["name"]))
+                for i in range(len(regs)):
+                    for j in range(i + 1, len(regs)):
+                        a, b = regs[i], regs[j]
+                        if a[0] == b[0] and (a[3] or b[3]):
+                            n += 1
+                            rep.check(a[2] <= b[1] or b[2] <= a[1], "K7-region", "%s: %s and %s do not overlap" % (c.callee, a[4], b[4]), c.where,
+                                      "both point into %s: bytes [%d,%d) and [%d,%d); the callee writes one while it still needs the other "
+                                      "(e.g. the hashed long key is overwritten by the pad fill)" % (a[0][1], a[1], a[2], b[1], b[2]), function=f.name, construct="region-overlap:%s/%s" % (a[4], b[4]))
+    if n < 10:
+        rep.defer_broken("K7: fewer than 10 array-parameter arguments analysed")
+
+
+def k8_bitcount(prog, rep):
+    """The 64-bit message length kept in two 32-bit words (SHA-1, MD5): low word += len << 3 with the carry detected by
+    comparing the sum with the addend just added, high word += len >> 29, the buffered-byte count taken from the low
+    word, and the word order matching the digest's byte order.  SHA-256 keeps a uint64_t and must widen before shifting."""
+    for up, pref, low, enc in (("alg/sha1.c", "SHA1", 1, "be32enc_vect"), ("alg/md5.c", "MD5", 0, "le32enc_vect")):
+        u = prog.unit(up)
+        f = u.func(pref + "_Update")
+        if not rep.names(f, "bitlen", "len", "r"):
+            continue
+        hi = 1 - low
+
+        def cnt(k):
+            return ("[]", (".", ("*", ("v", f.params[0]["name"], f.params[0]["id"])), "count"), ("c", k))
+        bl = {}
+        for e in f.all_elems():
+            if e.is_assign and e.op == "=" and norm(e.kid(0))[0] == "[]" and norm(e.kid(0))[1][0] == "v" and norm(e.kid(0))[1][1] == "bitlen":
+                bl[norm(e.kid(0))[2][1]] = norm(e.kid(1))
+        L = ("v", f.params[2]["name"], f.params[2]["id"])
+        ok = bl.get(low) == ("<<", L, ("c", 3)) and bl.get(hi) == (">>", L, ("c", 29))
+        rep.check(ok, "K8-bitcount", "%s: bit length split as low = len << 3, high = len >> 29" % f.name, f.loc, "%s" % {k: show(v) for k, v in bl.items()}, function=f.name, construct="split")
+        carry = None
+        for b in f.blocks.values():
+            if b.cond is None:
+                continue
+            for op, Lh, R, _, _ in cond_atoms(b.cond, True):
+                if Lh[0] == "+=" and op == "<":
+                    carry = (Lh, R, b)
+        okc = False
+        detail = "no carry test found"
+        if carry is not None:
+            Lh, R, b = carry
+            BL = lambda k: ("[]", Lh[2][1], ("c", k)) if Lh[2][0] == "[]" else None
+            okc = Lh[1] == cnt(low) and Lh[2][0] == "[]" and Lh[2][2] == ("c", low) and R == Lh[2]
+            inc = [e for e in f.blocks[b.succs[0]].elems if e.is_incdec and norm(e.kid(0)) == cnt(hi) and e.op in ("post++", "pre++")] if b.succs[0] is not None else []
+            okc = okc and len(inc) == 1
+            detail = "test (%s) < %s ; then %s" % (show(Lh), show(R), [x.text for x in inc])
+        rep.check(okc, "K8-bitcount", "%s: carry out of the low word is detected against the addend just added and increments the high word" % f.name, f.loc, detail, function=f.name, construct="carry")
+        addhi = [e for e in f.all_elems() if e.is_assign and e.op == "+=" and norm(e.kid(0)) == cnt(hi)]
+        rep.check(len(addhi) == 1 and norm(addhi[0].kid(1))[0] == "[]" and norm(addhi[0].kid(1))[2] == ("c", hi), "K8-bitcount", "%s: high word += high part of the length" % f.name, f.loc, "", function=f.name, construct="high-add")
+        rr = [e for e in f.all_elems() if e.is_assign and e.op == "=" and norm(e.kid(0))[0] == "v" and norm(e.kid(0))[1] == "r"]
+        rep.check(len(rr) == 1 and any(t == cnt(low) for t in subterms(norm(rr[0].kid(1)))), "K8-bitcount", "%s: buffered bytes come from the low word" % f.name, f.loc, "", function=f.name, construct="r-low")
+        p = u.func(pref + "_Pad")
+        e0 = list(p.calls(enc))
+        rep.check(len(e0) == 1 and norm(e0[0].arg(2)) == ("c", 8), "K8-bitcount", "%s_Pad encodes both count words with %s (word %d is the low one)" % (pref, enc, low), p.loc, "", function=p.name, construct="order")
+    u = prog.unit("alg/sha256.c")
+    f = u.func("SHA256_Update_internal")
+    adds = [e for e in f.all_elems() if e.is_assign and e.op == "+=" and norm(e.kid(0))[0] == "." and norm(e.kid(0))[2] == "count"]
+    ok = len(adds) == 1 and norm(adds[0].kid(1))[0] == "<<" and norm(adds[0].kid(1))[2] == ("c", 3)
+    if ok:
+        sh_ = adds[0].kid(1).strip()
+        lhs = sh_.kid(0)
+        ok = (u.types.get(lhs.ty) or {}).get("size") == 8      # widened to 64 bits before the shift
+    rep.check(ok, "K8-bitcount", "SHA256_Update: count += (uint64_t)len << 3", f.loc, "", function=f.name, construct="count64")
+
+
 def run(tier):
     rep = report.Report("C01", tier,
         "Decided: every constant table/literal equals the value derived here from its defining formula (K1); each unrolled round "
         "statement of SHA-256, SHA-1 and MD5 has the specified register rotation, rotate amounts, boolean function (truth table), "
         "message index and constant, and the schedules have the specified offsets (R); padding and length placement (K2); HMAC pads, "
         "long-key threshold and lengths (K3); PBKDF2 block index, iteration structure and truncation (K4); CRC32C polynomial, initial "
-        "state, table generator, step pairing and output order (K5); block-buffer writes bounded (K6). These fix the spec-determined "
+        "state, table generator, step pairing and output order (K5); block-buffer writes bounded (K6); scratch regions handed to `[static N]`/restrict array parameters are large enough and disjoint (K7); "
+        "the two-word bit counters carry correctly and are encoded in the digest's byte order (K8). These fix the spec-determined "
         "structure every output bit depends on. NOT decided: that the composition computes the standard functions for every message "
-        "and partition (numerical equality over all inputs), bit-count carry handling, one-shot/streaming agreement.",
+        "and partition (numerical equality over all inputs), one-shot/streaming agreement beyond the shared-structure clauses.",
         trusted=["C integer arithmetic on uint32_t wraps modulo 2^32"])
     configs = [cdb.HOST]
     if tier == "thorough":
@@ -633,6 +737,8 @@ def run(tier):
         k2_k3_k6(prog, rep)
         k4(prog, rep)
         k5(prog, rep)
+        k7_regions(prog, rep)
+        k8_bitcount(prog, rep)
     n = len(configs)
     rep.require_min("K1-const", 5 * n)
     rep.require_min("K3-hmac", 9 * n)
